@@ -173,7 +173,7 @@ def handle (be : Backend) (b : Build) (toks : List String) : String :=
       | _ => "P ?"
   | ["Y", k, rc] =>
     let r : Result := { rc := rc.toInt?.getD 0 }
-    (match Eav.decide (k.toNat?.getD 0) r with
+    (match Eav.verdictOf (k.toNat?.getD 0) r with
      | .ok (ret, ec, _) => "Y " ++ showInt ret ++ " " ++ toString ec
      | .error f => "Y " ++ showFault f)
   | "H" :: script :: rest =>
